@@ -13,6 +13,7 @@ func init() {
 				{Harness: "c18.valid", Mode: "plain", Shards: 16, MaxRSS: 8192},
 				{Harness: "c18.invalid", Mode: "plain", Shards: 16},
 				{Harness: "c18.lengths", Mode: "plain", Shards: 16},
+				{Harness: "c18.ctrl", Mode: "plain", Shards: 8},
 			}
 		},
 	})
